@@ -39,8 +39,12 @@ def _builtin(ex, name, args, kwargs, st, node):
 
 
 def _getattr_any(ex, obj, attr, st, node):
-    if attr == "hex":
+    if attr == "hex" and isinstance(obj, SV):
         return ex.ok(SV(TStr, uuid_hex(obj.z)), st)
+    if attr == "hex" and isinstance(obj, Opaque):
+        # .hex of an object that did not come from uuid.uuid4() (e.g. uuid.UUID(int=random.getrandbits(128))): some string, about which
+        # nothing is known -- in particular it is not a value "never issued before"
+        return ex.ok(SV(TStr, z3.String(smt.fresh_name("some_hex"))), st)
     return None
 
 
